@@ -299,10 +299,73 @@ def default_isolation_case(case):
     return dict(reproduced=bool(violated), violated=violated[:8])
 
 
+def subclass_cached_getter_case(case):
+    """C12 (statement): an observed Property always reads as what its getter computes from the current state, cached or not,
+    also when the caching is introduced by a subclass that overrides only the getter; every dependency change announces."""
+    from traits.api import HasTraits, Int, List, Instance, Property, cached_property
+    violated = []
+
+    class Item(HasTraits):
+        value = Int(1)
+
+    class Basket(HasTraits):
+        items = List(Instance(Item))
+        bonus = Int(0)
+        total = Property(Int, observe=["items.items.value", "bonus"])
+
+        def _get_total(self):
+            return sum(i.value for i in self.items) + self.bonus
+
+    class CachedBasket(Basket):
+        computed = 0
+
+        @cached_property
+        def _get_total(self):
+            self.computed += 1
+            return sum(i.value for i in self.items) + self.bonus
+
+    class DeclaredCached(HasTraits):
+        items = List(Instance(Item))
+        bonus = Int(0)
+        total = Property(Int, observe=["items.items.value", "bonus"])
+        computed = 0
+
+        @cached_property
+        def _get_total(self):
+            self.computed += 1
+            return sum(i.value for i in self.items) + self.bonus
+
+    class UncachedAgain(DeclaredCached):
+        def _get_total(self):
+            return sum(i.value for i in self.items) + self.bonus
+    for cls in (Basket, CachedBasket, DeclaredCached, UncachedAgain):
+        shared = Item(value=2)
+        b = cls(items=[shared, shared, Item(value=5)])
+        notes = []
+        b.observe(lambda e: notes.append(e.new), "total")
+        b.total
+        steps = [("bonus = 11", lambda: setattr(b, "bonus", 11)), ("repeated item changes", lambda: setattr(shared, "value", 3)),
+                 ("append", lambda: b.items.append(Item(value=7))), ("remove one occurrence", lambda: b.items.remove(shared)),
+                 ("replace the list", lambda: setattr(b, "items", [Item(value=1)])), ("item of the new list", lambda: setattr(b.items[0], "value", 9))]
+        for label, act in steps:
+            del notes[:]
+            before = getattr(b, "computed", 0)
+            act()
+            fresh = sum(i.value for i in b.items) + b.bonus
+            r1, r2 = b.total, b.total
+            if r1 != fresh or r2 != fresh:
+                violated.append("%s after %s: reads %r / %r, the getter computes %r" % (cls.__name__, label, r1, r2, fresh))
+            if not notes or notes[-1] != fresh:
+                violated.append("%s after %s: notifications for 'total' carried %r, expected a final %r" % (cls.__name__, label, notes, fresh))
+            if hasattr(cls, "computed") and "cached" in cls.__name__.lower() and cls.__name__ != "UncachedAgain" and getattr(b, "computed", 0) - before > 2:
+                violated.append("%s after %s: the cached getter ran %d times" % (cls.__name__, label, b.computed - before))
+    return dict(reproduced=bool(violated), violated=violated[:6])
+
+
 def main():
     case = json.loads(sys.stdin.read())
     out = {"get_trait": get_trait_case, "clone": clone_case, "prefix_trait_unhashable": prefix_trait_unhashable_case,
-           "prefix_cache_inherited": prefix_cache_inherited_case, "copy_traits": copy_traits_case, "default_isolation": default_isolation_case}[case["family"]](case)
+           "prefix_cache_inherited": prefix_cache_inherited_case, "copy_traits": copy_traits_case, "default_isolation": default_isolation_case, "subclass_cached_getter": subclass_cached_getter_case}[case["family"]](case)
     print(json.dumps(out, default=repr))
 
 
